@@ -51,6 +51,11 @@ type Case struct {
 	Direct string `json:"direct,omitempty"`
 	// how the abstract Accept header is spelled (see renderAcceptStyle); "" = the usual way
 	AcceptStyle string `json:"accept_style,omitempty"`
+	// hostile caller (sweep "hostile"): when the caller scribbles over every map
+	// API.ProducersFor hands out and every slice it passed in: before-context (between the
+	// registrations and NewContext, and after every request) | after-context (after
+	// NewContext and after every request)
+	Hostile string `json:"hostile,omitempty"`
 }
 
 // Step is one request of a sequence: an operation of seqOps, what its handler returns,
